@@ -168,8 +168,10 @@ class Index:
         self.enums["@methods"] = methods
         # private attributes are identified by role and renamed to the names the rules use (see core/canon.py)
         from . import canon
+        self.kwdicts = canon.expand_kwargs_dicts(self)
         self.matches = canon.desugar_matches(self)
         self.walrus = canon.desugar_walrus(self)
+        self.yieldfroms = canon.desugar_yield_from(self)
         self.positional = canon.positional_calls(self)
         self.aliased = canon.attach_aliased_methods(self)
         self.renamed = canon.apply(self, canon.discover(self))
